@@ -50,6 +50,10 @@ func genC14(tier string, seed uint64) *simkit.Plan {
 		p.SetKnob("premask", int64(1+r.Intn(1<<uint(rot+2)-1)))
 	}
 	p.SetKnob("target_has_state", int64(r.Intn(3)))
+	if r.Chance(0.15) {
+		// data_folder written with a trailing separator ("/data/raft/")
+		p.SetKnob("folder_slash", 1)
+	}
 	// the pinset
 	n := r.Range(1, 12)
 	for i := 0; i < n; i++ {
@@ -315,6 +319,11 @@ func execC14(w *world) {
 			syncExpected()
 			w.stopSingle()
 			cfgA := mkcfg(dataA)
+			if plan.Knob("folder_slash", 0) == 1 {
+				// the same folder, written with a trailing separator in the configuration
+				cfgA.DataFolder = dataA + string(os.PathSeparator)
+				run.Probe("data_folder_with_trailing_separator")
+			}
 			before := listDir(dirA)
 			beforeMarkers := readMarkers()
 			if err := raft.CleanupRaft(cfgA); err != nil {
